@@ -1,6 +1,7 @@
 package node
 
 import (
+	"errors"
 	"fmt"
 
 	"github.com/freeconf/yang/fc"
@@ -124,7 +125,11 @@ func (e editor) clearOnDifferentChoiceCase(existing *Selection, want meta.Meta) 
 		// we're eating the error here because destination may not implement choose because
 		// it's a write-only implementation. clearing the old value is a courtesy anyway so
 		// proceed with edit as planned.
-		return nil
+		if errors.Is(err, fc.NotImplementedError) {
+			return nil
+		}
+		// any other error is a failure of the node
+		return err
 	}
 	if existingCase != wantCase && existingCase != nil {
 		if err := e.clearChoiceCase(existing, existingCase); err != nil {
